@@ -1,0 +1,9 @@
+//go:build !verif
+
+package nsqd
+
+import "time"
+
+// verifAdjustTicker lets the verification harness shorten the hard-coded nsqlookupd
+// heartbeat interval; without the verif build tag it does nothing.
+func verifAdjustTicker(*time.Ticker) {}
